@@ -15,6 +15,11 @@
     c05.updatej nt T… dir A B n (tbl field e)* on cond   UPDATE T… SET … FROM A dir JOIN B ON on WHERE cond;  dir = left|right|full
     c05.deletej nt T… dir A B on cond         DELETE T… FROM A dir JOIN B ON on WHERE cond
                                               (the NULL-padded side of an unmatched record has no internal record id)
+    c05.updateu nt T… kind A B U n (tbl field e)* cond   UPDATE T… SET … FROM A kind JOIN B USING (U…) WHERE cond
+    c05.deleteu nt T… kind A B U cond         DELETE T… FROM A kind JOIN B USING (U…) WHERE cond
+                                              kind = inner|left|right|full; U = `k c_1…c_k` (USING) or `natural`;
+                                              in e / cond the join columns are written without a table (`$c`: the merged
+                                              column, the preserved side's value or — where that is NULL — the other's)
     c05.addcol N pos n (name 0 | name 1 e)*   ALTER TABLE N ADD (…) pos;  pos = first|last|before:c|after:c
     c05.dropcol N n col…   c05.rename N old new   c05.create N n col…
     c05.createas N n col… src k e_1…e_k cond   CREATE TABLE N (cols) AS SELECT e… FROM src WHERE cond
@@ -25,6 +30,8 @@
     c05.dump N                                                           → dump
     c08.copysites                        the writes of the data-changing functions whose level is SHARED between a working
                                          copy and the cached table in the regenerated copy facts → `ok` | site | site …
+    c05.fileinfo                         FileInfo struct copies inside data-changing functions / views given another FileInfo
+                                         outside CreateTable (regenerated, extract/copyfacts) → `ok` | site | …
     c08.copydepth                        the levels of a working copy that the reviewed depth calls its own and the
                                          regenerated copy facts do not → `ok` | level: fact | …
   F (field list) = `-` (all columns) or `k f_1…f_k`.
@@ -275,6 +282,44 @@ def parsePos (s : String) : Option ColPos :=
 def parseDir (s : String) : Option Dml.Dir :=
   if s = "left" then some .left else if s = "right" then some .right else if s = "full" then some .full else none
 
+def parseKind (s : String) : Option (Option Dml.Dir) :=
+  if s = "inner" then some none else (parseDir s).map some
+
+/-- `natural` | `k c_1 … c_k` -/
+def takeUsing (toks : List String) : Option (Option (List String) × List String) :=
+  match toks with
+  | "natural" :: rest => some (none, rest)
+  | _ => (takeN toks).map fun p => (some p.1, p.2)
+
+/-- csvq's `=` on two cells (NULL on either side: UNKNOWN) -/
+def eqvCell (x y : Cell) : Tern := if x.isNull || y.isNull then .U else Csvq.compare .eq x y
+
+/-- the cells of a record whose column is (not) among `U` -/
+def splitCols (h : List String) (r : Row) (U : List String) : List String × Row :=
+  let kept := (h.zip r).filter fun p => !U.contains p.1
+  (kept.map Prod.fst, kept.map Prod.snd)
+
+def cellOf (h : List String) (r : Row) (c : String) : Cell :=
+  match firstIdx c h with
+  | some i => r[i]?.getD nullCell
+  | none => nullCell
+
+/-- the evaluation context of a USING / NATURAL join: the merged columns (no table name) take the value of the preserved
+    side — the left table, for RIGHT the right one — or, where that is NULL, the other side's; the other columns keep their table -/
+def usingCtx (a b : String) (ha hb : List String) (dir : Option Dml.Dir) (U : List String) (rows : List Row) : Ctx :=
+  match rows with
+  | [ra, rb] =>
+    let merged := U.map fun c =>
+      let va := cellOf ha ra c
+      let vb := cellOf hb rb c
+      match dir with
+      | some .right => if vb.isNull then va else vb
+      | _ => if va.isNull then vb else va
+    let pa := splitCols ha ra U
+    let pb := splitCols hb rb U
+    [("", U, merged), (a, pa.1, pa.2), (b, pb.1, pb.2)]
+  | _ => []
+
 def chunkRows (n : Nat) (cells : List Cell) : Nat → List Row
   | 0 => []
   | fuel + 1 => if cells.isEmpty || n = 0 then [] else cells.take n :: chunkRows n (cells.drop n) fuel
@@ -352,6 +397,8 @@ def step (s : State) (cmd : String) (args : List String) : State × String :=
   | "dump", [n] => (s, dumpOf s.tables n)
   | "copysites", [] =>
     (s, if Csvq.CopySites.current.isEmpty then "ok" else String.intercalate " | " Csvq.CopySites.current)
+  | "fileinfo", [] =>
+    (s, if Csvq.CopySites.currentFileInfo.isEmpty then "ok" else String.intercalate " | " Csvq.CopySites.currentFileInfo)
   | "copydepth", [] =>
     (s, if Csvq.CopySites.currentDepth.isEmpty then "ok" else String.intercalate " | " Csvq.CopySites.currentDepth)
   | "committed", [n] =>
@@ -550,6 +597,45 @@ def step (s : State) (cmd : String) (args : List String) : State × String :=
             runStmt s (.deleteMulti targets froms (.outer dir fun rows => evalCond s.tables (mk rows) on)
               (fun rows => evalCond s.tables (mk rows) cond)) targets
           | _ => bad
+    | _ => bad
+  | "updateu", rest =>
+    match takeN rest with
+    | some (targets, kd :: a :: b :: r2) =>
+      match parseKind kd, takeUsing r2 with
+      | some dir, some (cols, k :: r3) =>
+        match k.toNat? with
+        | none => bad
+        | some k =>
+          match parseSetsM k r3 with
+          | none => bad
+          | some (sets, r4) =>
+            match pEx r4 with
+            | some (cond, []) =>
+              let ha := headerOf s.tables a
+              let hb := headerOf s.tables b
+              let U := cols.getD (naturalCols ha hb)
+              let mk (rows : List Row) : Ctx := usingCtx a b ha hb dir U rows
+              runStmt s (.updateMulti targets [a, b] (.using dir cols eqvCell)
+                (fun rows => evalCond s.tables (mk rows) cond)
+                (sets.map fun p => (p.1, { field := p.2.1, expr := fun rows => eval s.tables (mk rows) p.2.2 }))) targets
+            | _ => bad
+      | _, _ => bad
+    | _ => bad
+  | "deleteu", rest =>
+    match takeN rest with
+    | some (targets, kd :: a :: b :: r2) =>
+      match parseKind kd, takeUsing r2 with
+      | some dir, some (cols, r3) =>
+        match pEx r3 with
+        | some (cond, []) =>
+          let ha := headerOf s.tables a
+          let hb := headerOf s.tables b
+          let U := cols.getD (naturalCols ha hb)
+          let mk (rows : List Row) : Ctx := usingCtx a b ha hb dir U rows
+          runStmt s (.deleteMulti targets [a, b] (.using dir cols eqvCell)
+            (fun rows => evalCond s.tables (mk rows) cond)) targets
+        | _ => bad
+      | _, _ => bad
     | _ => bad
   | "addcol", n :: pos :: k :: rest =>
     match parsePos pos, k.toNat? with
